@@ -19,6 +19,7 @@ structure Info where
   nr   : List String
   hung : Bool
   live : Nat
+  second : String := "none"    -- result class and state of a second Run() after the first returned ("none": not tried)
   deriving Repr
 
 def sortPairs (l : List (String × Nat)) : List (String × Nat) :=
